@@ -157,8 +157,18 @@ def _main(pid, args, seed):
     total = Shard(pid)
     nw = max(1, min(args.workers, len(shards)))
     ctx = mp.get_context("fork")
+    # wall-clock limit for the whole exploration: a (mutated) library can spend unbounded time inside one C-level
+    # operation that the per-case alarm cannot interrupt; such a run is a broken run (exit 2), never silently green
+    deadline = t0 + float(os.environ.get("VERIF_DEADLINE", "1500" if args.tier == "quick" else "5400"))
     with ctx.Pool(nw, initializer=_init_worker, initargs=(pid,)) as pool:
-        for status, res in pool.imap_unordered(_run_shard, shards, chunksize=1):
+        it = pool.imap_unordered(_run_shard, shards, chunksize=1)
+        for _ in range(len(shards)):
+            try:
+                status, res = it.next(timeout=max(1.0, deadline - time.time()))
+            except mp.TimeoutError:
+                pool.terminate()
+                raise HarnessError("exploration exceeded its wall-clock limit of %.0f s (a case did not terminate?)"
+                                   % (deadline - t0))
             if status != "ok":
                 pool.terminate()
                 raise HarnessError("worker crashed: " + res)
